@@ -302,11 +302,40 @@ pub fn new_table(kind: &str, c: &Value) -> T {
     }
 }
 
+/// An entry obtained from the entry type's `Default` (all fields zero) handed to the table's add operation.
+fn add_default(t: &mut T, st: &str) -> H {
+    match (t, st) {
+        (T::Madt(t), "lapic") => t.add_structure(madt::ProcessorLocalApic::default()),
+        (T::Madt(t), "ioapic") => t.add_structure(madt::IoApic::default()),
+        (T::Madt(t), "gicc") => t.add_structure(madt::Gicc::default()),
+        (T::Madt(t), "gicd") => t.add_structure(madt::Gicd::default()),
+        (T::Madt(t), "gicmsi") => t.add_structure(madt::GicMsi::default()),
+        (T::Madt(t), "gicr") => t.add_structure(madt::Gicr::default()),
+        (T::Madt(t), "gicits") => t.add_structure(madt::GicIts::default()),
+        (T::Madt(t), "rintc") => t.add_structure(madt::RINTC::default()),
+        (T::Madt(t), "imsic") => t.add_structure(madt::IMSIC::default()),
+        (T::Srat(t), "rintcaff") => t.add_rintc_affinity(srat::RintcAffinity::default()),
+        (T::Hmat(t), "mpda") => t.add_memory_proximity(hmat::MemoryProximityDomain::default()),
+        (T::Pptt(t), "cache") => return H::Cache(t.add_cache(pptt::CacheNode::default())),
+        (T::Hest(t), "aerroot") => t.add_structure(hest::PcieAerRootPort::default()),
+        (T::Hest(t), "aerdev") => t.add_structure(hest::PcieAerDevice::default()),
+        (T::Hest(t), "aerbridge") => t.add_structure(hest::PcieAerBridge::default()),
+        (T::Hest(t), "ghes") => t.add_structure(hest::GenericHardwareSource::default()),
+        (T::Hest(t), "ghesv2") => t.add_structure(hest::GenericHardwareSourceV2::default()),
+        (T::Rqsc(t), "qos") => t.add_controller(rqsc::QoSController::default()),
+        (_, x) => panic!("add_default {x}"),
+    }
+    H::None
+}
+
 /// Apply one operation; returns the handle it produced (H::None if none).
 /// `done` is the operations applied before this one (FADT rebuilds from the prefix).
 pub fn apply(t: &mut T, c: &Value, done: &[Value], op: &Value, hs: &Hs) -> H {
     let name = str_of(get(op, "op"));
     let a = op.get("a").cloned().unwrap_or(json!({}));
+    if name == "add_default" {
+        return add_default(t, str_of(get(&a, "st")));
+    }
     match t {
         T::Fadt(f) => {
             let mut all = done.to_vec();
